@@ -2,15 +2,16 @@
 //
 // Enumerated (bounded-exhaustive, simplest first):
 //
-//	(A) "structure" family: ALL patterns of the grammar below with at most N
-//	    leaves (N = 3 quick, 4 thorough) and group nesting <= 2 over the leaf
-//	    atoms {a, b, .}:
+//	(A) "structure" family: ALL patterns of the grammar below up to a SIZE bound
+//	    (size = leaves + groups + anchors):
 //	        regex   := seq ( '|' seq )*
-//	        seq     := [^ | \A]  (atom quant?)+  [$ | \Z]   (anchors only at the ends of a seq, each counts as a leaf)
+//	        seq     := [^ | \A]  (atom quant?)+  [$ | \Z]   (anchors only at the ends of a seq)
 //	        atom    := a | b | . | '(' regex ')'
 //	        quant   := * + ? *? +? ??
-//	    each run against ALL subject strings over {a,b,1,' '} of length <= 5
-//	    (quick 4).
+//	    quick:    size <= 2 over the leaves {a,b,.}, size 3 over {a,b}
+//	    thorough: size <= 3 over {a,b,.}, size 4 over {a,b} with the quantifiers {none, *, ??}
+//	    each run against ALL subject strings over {a,b,1} of length <= 5
+//	    (quick: 4 for the patterns of size <= 2, 3 for size 3).
 //	(B) "class" family: all sequences of 1..2 (atom quant?) over the leaf atoms
 //	    {a, b, A, ., [ab], [^a], [a-b], [^ab], [a-b1], [\da], [AB], [^A], \d, \w, \s, \D, \W, \S},
 //	    plain / with (?i) prefix / wrapped as ^…$ and \A…\Z, against all
@@ -209,7 +210,7 @@ func buildWork(c *lib.Ctx) []work {
 	}
 	if c.Quick() {
 		for _, r := range g2.regexes(3) {
-			add(work{"A", r.s, r.g, "ab1", lenA})
+			add(work{"A", r.s, r.g, "ab1", 3})
 		}
 	} else {
 		for _, r := range gr.regexes(4) {
